@@ -187,6 +187,6 @@ int read_srec(const char *filename, Memory *memory)
   memory->low_address = start;
   memory->high_address = end;
 
-  return start_address;
+  return 0;
 }
 
